@@ -153,8 +153,10 @@ class Schema:
         if tag == "type":
             presence = el.get("presence", "required")
             const = (el.text or "").strip() if presence == "constant" else None
-            return TypeDef(name, el.get("primitiveType"), int(el.get("length", "1")), presence, const,
-                           el.get("minValue"), el.get("maxValue"), el.get("nullValue"))
+            t = TypeDef(name, el.get("primitiveType"), int(el.get("length", "1")), presence, const,
+                        el.get("minValue"), el.get("maxValue"), el.get("nullValue"))
+            t.value_ref = el.get("valueRef")
+            return t
         if tag == "enum":
             prim = s.prim_of(el.get("encodingType"))
             return EnumDef(name, prim, [(v.get("name"), (v.text or "").strip()) for v in el.findall("validValue")])
